@@ -21,6 +21,8 @@ func TestC13(t *testing.T) {
 	editsFaults := &w.Alpha{Templates: []string{"A", "B"}, EDSFaults: []string{"reject:list ExtendedDaemonSetReplicaSet", "lost:create ExtendedDaemonSetReplicaSet", "reject:delete ExtendedDaemonSetReplicaSet"}}
 	editsCanary := &w.Alpha{Templates: []string{"A", "B", "C"}, Kubectl: []string{"canary-validate", "canary-fail"}}
 	s2 := corpusS2(n, "1", b, edits)
+	// n1 carries a resource override annotation (its hash is stamped next to the template hash on the pods)
+	s2.nodeAnnots = map[string]map[string]string{"n1": {"resources.extendeddaemonset.datadoghq.com/ns.foo.main": `{"requests":{"cpu":"200m"}}`}}
 	s3 := corpusS3(n, "1", "auto", b-1, editsCanary)
 	s2f := corpusS2([]string{"n1"}, "1", 2, editsFaults)
 	s2f.name = "S2-edits-with-faults"
